@@ -18,6 +18,7 @@ import (
 	"regexp"
 	"runtime"
 	"runtime/debug"
+	"runtime/pprof"
 	"sort"
 	"strconv"
 	"strings"
@@ -116,6 +117,12 @@ func workerMain(args []string) {
 	defer f.Close()
 	env := &core.Env{Tier: *tier, Seed: *seed, Workdir: *work}
 	debug.SetMaxStack(256 << 20) // a runaway recursion dies after 256 MB instead of 1 GB
+	if pf := os.Getenv("VERIF_CPUPROFILE"); pf != "" {
+		if cf, err := os.Create(pf); err == nil {
+			_ = pprof.StartCPUProfile(cf)
+			defer pprof.StopCPUProfile()
+		}
+	}
 	enc := json.NewEncoder(f)
 	for i := *from; i < *to; i++ {
 		idx := i
